@@ -13,8 +13,8 @@ RULE = ("every (generator, width, carry flags) with adder w<=4 (quick 3), mux w<
         "non-trivial = a block with at least one gate or a helper call with a non-zero argument; distinct = (function, arguments)")
 EXPLANATION = ("adder/mux/half/full adder and the helpers proved for every width over the model; model = implementation result by graph "
                "equality; arithmetic specification evaluated in Coq on the returned circuit for all input vectors")
-SHARD = 4
-HASHSEEDS = {"quick": [0], "thorough": [0, 1, 2]}
+SHARD = 25
+HASHSEEDS = {"quick": [0], "thorough": [0, 1]}
 
 
 # ---------------------------------------------------------------- generation
@@ -40,6 +40,7 @@ def generate(rng, tier):
         n = rng.randint(1, 12) if rng.random() < 0.8 else rng.randint(13, 70)
         out.append({"fn": "b2i", "b": [rng.random() < 0.5 for _ in range(n)], "lend": rng.random() < 0.5})
     # blocks, judged in Coq on all input vectors
+    helpers, out = out, []
     out += [{"fn": "half_adder"}, {"fn": "full_adder"}]
     for w in range(0, 4 if q else 5):
         for ci in (False, True):
@@ -58,7 +59,15 @@ def generate(rng, tier):
             for fn in ("adder", "mux", "popcount"):
                 out.append({"fn": "sim", "block": fn, "w": w, "ci": rng.random() < 0.5, "co": rng.random() < 0.5,
                             "vectors": 200, "seed": rng.getrandbits(32)})
-    return out
+    # spread the (expensive) block cases evenly among the (cheap) helper cases so that the Coq shards are balanced
+    blocks = out
+    step = max(1, len(helpers) // max(1, len(blocks)))
+    mixed = []
+    for k, h in enumerate(helpers):
+        if k % step == 0 and blocks:
+            mixed.append(blocks.pop(0))
+        mixed.append(h)
+    return mixed + blocks
 
 
 # ---------------------------------------------------------------- implementation driver
